@@ -299,6 +299,13 @@ func report(o opts, s *prep.Scratch, m *merged, t0 time.Time) int {
 		if code != 1 || !strings.Contains(outp, "REPRODUCED") || strings.Contains(outp, "NOT-REPRODUCED") {
 			fatal2("violation %s (%s) did not reproduce from its replay file %s in a fresh process:\n%s", o.prop, sig, path, outp)
 		}
+		status, why := confirmReal(s, v)
+		if status == "refuted" {
+			// the rewritten tool diverges, the real one does not: an artefact of the machinery, not of the tree
+			fmt.Printf("NOTE: %s %s not counted: %s [replay=%s]\n", o.prop, sig, why, path)
+			m.stats.Probes["divergences-refuted-by-the-real-binary"]++
+			continue
+		}
 		if f := matchFinding(findings, o.prop, sig); f != nil {
 			known++
 			fmt.Printf("KNOWN-FINDING: property=%s %s [sig=%s replay=%s]\n", o.prop, f.What, sig, path)
@@ -307,6 +314,10 @@ func report(o opts, s *prep.Scratch, m *merged, t0 time.Time) int {
 		newViol++
 		fmt.Printf("VIOLATION property=%s replay=%s\n", o.prop, path)
 		fmt.Printf("  signature: %s\n", sig)
+		if status != "n/a" {
+			fmt.Printf("  real binary: %s - %s\n", status, why)
+			m.stats.Probes["divergences-"+status+"-on-the-real-binary"]++
+		}
 		for _, l := range strings.Split(strings.TrimSpace(v.Detail), "\n") {
 			if len(l) > 300 {
 				l = l[:300] + "..."
